@@ -37,15 +37,16 @@ const (
 )
 
 type env struct {
-	o      *h.Opts
-	r      *h.Result
-	d      *h.Driver
-	rnd    *h.Rand
-	w      *h.RecvWorker
-	keyA   *h.KeyPair
-	keyB   *h.KeyPair
-	ecCert []byte
-	known  map[string]int
+	o       *h.Opts
+	r       *h.Result
+	d       *h.Driver
+	rnd     *h.Rand
+	w       *h.RecvWorker
+	keyA    *h.KeyPair
+	keyB    *h.KeyPair
+	ecCert  []byte
+	known   map[string]int
+	blocked int // streams on which Receive got stuck
 }
 
 func (e *env) fail(c, sig, detail string) {
@@ -66,8 +67,8 @@ func (e *env) fail(c, sig, detail string) {
 
 type frame struct {
 	raw   []byte
-	opens *h.RecvRefChunk // secured channel: the frame is a properly sealed chunk
-	cert  string          // OPN with a policy other than None: verdict of x509/uapolicy
+	opens []byte // secured channel: the signature verifies, this is the plaintext behind the security header (non-nil)
+	cert  string // OPN with a policy other than None: verdict of x509/uapolicy
 }
 
 type scase struct {
@@ -100,7 +101,7 @@ func (e *env) line(sc *scase) string {
 	for i, f := range sc.frames {
 		t := h.Hex(f.raw)
 		if f.opens != nil {
-			t += "/o=" + f.opens.Token()
+			t += "/o=" + h.Hex(f.opens)
 		}
 		if f.cert != "" {
 			t += "/c=" + f.cert
@@ -111,7 +112,11 @@ func (e *env) line(sc *scase) string {
 	if sc.open() {
 		chans = "11"
 	}
-	return fmt.Sprintf("raw %d %d %d %d %d %s %s", sc.rcvBuf, sc.maxChunks, sc.maxMsg, b2i(sc.secure()), b2i(sc.opening()), chans, strings.Join(toks, " "))
+	sec := b2i(sc.secure())
+	if sc.mode == 3 {
+		sec = 2
+	}
+	return fmt.Sprintf("raw %d %d %d %d %d %s %s", sc.rcvBuf, sc.maxChunks, sc.maxMsg, sec, b2i(sc.opening()), chans, strings.Join(toks, " "))
 }
 
 func (e *env) caseText(sc *scase) string {
@@ -249,20 +254,44 @@ func (e *env) randomFrame(sc *scase, sealer *h.RecvSealer, seq *uint32) frame {
 	case 5: // CLO
 		return frame{raw: mkFrame("CLO", 'F', ch, append([]byte{22, 0, 0, 0}, e.rnd.Bytes(e.rnd.Intn(20))...))}
 	default: // MSG
-		if sc.secure() && sc.open() && e.rnd.Chance(55) {
-			c := h.RecvRefChunk{Type: byte(e.rnd.Pick('F', 'C', 'A')), ChannelID: 11, TokenID: 22, Seq: *seq, Req: uint32(e.rnd.Pick(1, 2, 3)), Body: e.good(sc, e.rnd.Pick(0, 10), 1)}
-			if c.Type == 'A' {
-				c.Body = h.RecvAbortBody(0x80010000, nil)
+		if sc.secure() && sc.open() && e.rnd.Chance(60) {
+			// a chunk with a valid signature, built from the primitives; the plaintext may be hostile
+			ctb := byte(e.rnd.Pick('F', 'F', 'C', 'A'))
+			var body []byte
+			switch e.rnd.Intn(4) {
+			case 0:
+				body = h.RecvAbortBody(0x80010000, nil)
+			case 1:
+				body = append([]byte{0x0f}, e.rnd.Bytes(e.rnd.Intn(20))...)
+			default:
+				body = e.good(sc, e.rnd.Pick(0, 10), 1)
 			}
+			plain := make([]byte, 8, 8+len(body)+32)
+			binary.LittleEndian.PutUint32(plain, *seq)
+			binary.LittleEndian.PutUint32(plain[4:], uint32(e.rnd.Pick(1, 2, 3)))
 			*seq++
-			w, err := sealer.Seal(c)
-			if err == nil {
-				if e.rnd.Chance(25) { // damaged in transit / forged
+			plain = append(plain, body...)
+			if e.rnd.Chance(15) {
+				plain = plain[:e.rnd.Intn(9)] // too short for a sequence header, still signed
+			}
+			if sc.mode == 3 {
+				n := 16 - (len(plain)+sealer.SignatureLength())%16 // 1..16 padding bytes incl. the size byte
+				v := byte(n - 1)                                   // well-formed
+				if e.rnd.Chance(45) {                              // hostile PaddingSize under a valid signature
+					v = byte(e.rnd.Pick(0, n, n+7, len(plain)+n-1, len(plain)+n, len(plain)+n+1, len(plain)+n+sealer.SignatureLength()-1, 200, 255))
+				}
+				for i := 0; i < n; i++ {
+					plain = append(plain, v)
+				}
+			}
+			w, err := sealer.SealPlain(ctb, 11, 22, ua.MessageSecurityMode(sc.mode), plain)
+			if err == nil && len(w) <= int(sc.rcvBuf) {
+				if e.rnd.Chance(20) { // damaged in transit / forged
 					w = append([]byte{}, w...)
 					w[16+e.rnd.Intn(len(w)-16)] ^= 0x40
 					return frame{raw: w}
 				}
-				return frame{raw: w, opens: &c}
+				return frame{raw: w, opens: append([]byte{}, plain...)}
 			}
 		}
 		if sc.secure() { // unsecured or short bytes on a secured channel
@@ -465,6 +494,10 @@ func (e *env) runCase(sc *scase) {
 			e.r.Confirm(sig, fmt.Sprintf("%s, ReceiveBufSize %d adopted from the Acknowledge: the process dies allocating the receive buffer (%.120s)", sc.setup, sc.rcvBuf, res.Outcome))
 		}
 		e.fail(text, sig, "the receive path does not survive the stream: "+strings.SplitN(res.Outcome, "\n", 2)[0])
+	case strings.HasPrefix(res.Outcome, "blocked"):
+		// every byte was delivered and the socket half-closed, yet Receive sits on a lock/channel
+		e.blocked++
+		e.fail(text, "", "Receive blocks forever on a finite stream: "+res.Outcome)
 	case res.Outcome == "timeout":
 		e.r.InfraError = "stream not consumed within the deadline (twice): " + text[:min(len(text), 300)]
 	case res.Outcome == "ok":
@@ -634,7 +667,7 @@ func main() {
 	e.flood("open-server", o.N(8000, 20000))
 	e.flood("open", o.N(4000, 20000))
 	n := o.N(600, 20000)
-	for i := 0; i < n && r.InfraError == ""; i++ {
+	for i := 0; i < n && r.InfraError == "" && e.blocked < 3; i++ {
 		if sc, ok := e.genCase(); ok {
 			e.runCase(sc)
 		}
